@@ -1373,6 +1373,18 @@ func validateProposedConfigEntryInServiceGraph(
 	return nil
 }
 
+// sortedServiceIDs returns the keys of m ordered by enterprise meta, then name.
+func sortedServiceIDs[V any](m map[structs.ServiceID]V) []structs.ServiceID {
+	ids := maps.SliceOfKeys(m)
+	sort.Slice(ids, func(i, j int) bool {
+		if ids[i].EnterpriseMeta.IsSame(&ids[j].EnterpriseMeta) {
+			return ids[i].ID < ids[j].ID
+		}
+		return ids[i].EnterpriseMeta.LessThan(&ids[j].EnterpriseMeta)
+	})
+	return ids
+}
+
 func validateChainIsPeerExportSafe(
 	tx ReadTxn,
 	exportedSvc structs.ServiceName,
@@ -1390,7 +1402,11 @@ func validateChainIsPeerExportSafe(
 		return acl.EqualPartitions(entry.GetEnterpriseMeta().PartitionOrEmpty(), found)
 	}
 
-	for _, e := range chainEntries.Routers {
+	// Visit the entries of each kind in a fixed order: this runs inside the Raft
+	// FSM, and when several entries of the chain are unfit for export the
+	// complaint that is reported must not depend on map iteration order.
+	for _, sid := range sortedServiceIDs(chainEntries.Routers) {
+		e := chainEntries.Routers[sid]
 		for _, route := range e.Routes {
 			if route.Destination == nil {
 				continue
@@ -1401,7 +1417,8 @@ func validateChainIsPeerExportSafe(
 		}
 	}
 
-	for _, e := range chainEntries.Splitters {
+	for _, sid := range sortedServiceIDs(chainEntries.Splitters) {
+		e := chainEntries.Splitters[sid]
 		for _, split := range e.Splits {
 			if !emptyOrMatchesEntryPartition(e, split.Partition) {
 				return fmt.Errorf("peer exported service %q contains cross-partition split destination", exportedSvc)
@@ -1409,7 +1426,8 @@ func validateChainIsPeerExportSafe(
 		}
 	}
 
-	for _, e := range chainEntries.Resolvers {
+	for _, sid := range sortedServiceIDs(chainEntries.Resolvers) {
+		e := chainEntries.Resolvers[sid]
 		if e.Redirect != nil {
 			if e.Redirect.Datacenter != "" {
 				return fmt.Errorf("peer exported service %q contains cross-datacenter resolver redirect", exportedSvc)
